@@ -1,15 +1,25 @@
 import GraphSlam.Generated.Dispatch
 import Driver.Proto
 import GraphSlam.Model.Chi2
+import GraphSlam.Model.Ctl
+import Driver.Asm
 
 /-! Model driver: one request per input line, one reply per output line.
 
   eval <name> <dims|-> <hexfloat>*      evaluate a generated definition at Float
   names                                  list generated definitions
   sum <hexfloat>*                        Model.graphChi2 (Python `sum`) at Float
+  asm <graph snapshot>                   Model.contribs / accumulate / fillGradient / fillHessian (see Driver/Asm.lean)
+  ctl <tol> <eps> <maxIter> <chi2>*      Model.optimizeCtl: the report of Graph.optimize from the chi2 sequence
 -/
 
 open Driver
+
+def fmtOpt (x : Option Float) : String := match x with | some v => fmtFloat v | none => "none"
+
+def fmtReport (r : GraphSlam.Model.Report Float) : String :=
+  let its := r.iters.map fun it => s!"{fmtOpt it.chi2}:{fmtOpt it.relDiff}:{if it.complete then 1 else 0}"
+  s!"conv={if r.converged then 1 else 0} n={match r.numIterations with | some k => toString k | none => "none"} init={fmtOpt r.initialChi2} final={fmtOpt r.finalChi2} iters={",".intercalate its}"
 
 def handle (line : String) : String :=
   match (line.trimAscii.toString.splitOn " ").filter (· ≠ "") with
@@ -24,6 +34,14 @@ def handle (line : String) : String :=
     match parseFloats rest with
     | some a => "ok " ++ fmtFloat (GraphSlam.Model.graphChi2 a.toList)
     | none => "err bad-args"
+  | "ctl" :: tol :: eps :: maxIter :: rest =>
+    match parseFloat tol, parseFloat eps, maxIter.toNat?, parseFloats rest with
+    | some t, some e, some m, some cs =>
+      match GraphSlam.Model.optimizeCtl t e m (fun i => cs.getD i (0.0 / 0.0)) with
+      | .ok r => "ok " ++ fmtReport r
+      | .error _ => "err IndexError"
+    | _, _, _, _ => "err bad-args"
+  | "asm" :: rest => handleAsm rest
   | ["names"] => "ok " ++ " ".intercalate GraphSlam.Gen.Dispatch.names
   | _ => "err bad-op"
 
